@@ -16,7 +16,8 @@ THEOREMS = ["Cxx.C03_access_tracks", "Cxx.C03_member_access", "Cxx.C03_stack_ref
     "Cxx.C03_class_body",
     "Cxx.C03_class_source",
     "Cxx.C03_nested_class",
-    "Cxx.C03_cv_field", "Cxx.toplevel_field_gen", "Cxx.C03_field_general", "Cxx.toplevel_field_pre", "Cxx.C03_method_general", "Cxx.toplevel_method_gen", "Cxx.C03_array_field", "Cxx.toplevel_field_array_pre", "Cxx.C03_bitfield_member", "Cxx.toplevel_field_bits_pre", "Cxx.C03_method_definition", "Cxx.declarator_method_body"]
+    "Cxx.C03_cv_field", "Cxx.toplevel_field_gen", "Cxx.C03_field_general", "Cxx.toplevel_field_pre", "Cxx.C03_method_general", "Cxx.toplevel_method_gen", "Cxx.C03_array_field", "Cxx.toplevel_field_array_pre", "Cxx.C03_bitfield_member", "Cxx.toplevel_field_bits_pre", "Cxx.C03_method_definition", "Cxx.declarator_method_body",
+    "Cxx.C03_class_head_bases", "Cxx.C03_base_virtual_own", "Cxx.C03_base_access_own", "Cxx.baseClause_list", "Cxx.toplevel_class_head_bases"]
 ANCHORS = ["parser.py:CxxParser._parse_class_decl", "parser.py:CxxParser._parse_class_decl_base_clause", "parser.py:CxxParser._process_access_specifier",
            "parser.py:CxxParser._parse_method_end", "parser.py:CxxParser._parse_function", "parser.py:CxxParser._parse_decl", "parser.py:CxxParser._parse_field",
            "parser.py:CxxParser._finish_class_or_enum", "parser.py:CxxParser._finish_class_decl", "parser.py:CxxParser._on_block_end", "parser.py:CxxParser._pop_state",
@@ -37,7 +38,8 @@ CARRIED_BY = {
     "access level in force = default until first specifier of the same class, then most recent of that class (any nesting)": "theorem C03_access_tracks (full, unbounded) + C03_stack_refines (the interpreter's stack is that machine)",
     "anonymous ids are never reused": "theorems C03_anon_mono, C03_anon_ids_increase (any client)",
     "method qualifiers: for every sequence of const / volatile / override / final / & / && (any order, any number) ended by a plain token, `= 0|delete|default` or a body, exactly the written flags are set and nothing else of the method changes": "theorems C03_method_qualifiers, C03_method_qualifiers_assign, C03_method_qualifiers_body, C03_qualifier_flags",
-    "member kinds, constructors/destructors, noexcept/throw/trailing return in the sequence, base flags": "NOT theorems: correspondence `parse[class view]` + oracle `member_grammar`",
+    "base clauses `key N : [access] [virtual] a::…::B [...] , … {` (any number of bases, any number/order of specifiers): the class block header lists ONE BaseClass per written base, in order, each with the access level of ITS OWN latest access specifier (else the class-key default), virtual iff written among ITS OWN specifiers, pack flag iff `...` follows ITS OWN name — nothing leaks from one base to the next; such classes compose in whole sources and class bodies (Item.clsB / Member.clsB)": "theorems C03_class_head_bases, C03_base_access_own, C03_base_virtual_own (Props/C03.lean) over baseClause_list / baseSpec_loop (Theorems/BaseClause.lean, induction over the base list and each specifier list); bases with template arguments: correspondence + oracle `member_grammar`",
+    "member kinds, constructors/destructors, noexcept/throw/trailing return in the sequence, template-argument bases": "NOT theorems: correspondence `parse[class view]` + oracle `member_grammar`",
 }
 ASSUMPTIONS = ["parser model tied to parser.py by the correspondence check"]
 MODEL_COVERAGE = "class-related functions of parser.py (Parser/Decl.lean), state stack (Interp.lean)"
